@@ -82,11 +82,29 @@ func argFor(t string) (string, error) {
 }
 
 func callExpr(f chains.Func) (recv string, call string, err error) {
+	recv, calls, err := callExprs(f)
+	if err != nil {
+		return "", "", err
+	}
+	return recv, calls[0], nil
+}
+
+// callExprs: the call with its default arguments first, then the argument shapes an
+// implementation may treat differently: no variadic arguments with a literal format, and
+// the empty message.
+func callExprs(f chains.Func) (recv string, calls []string, err error) {
 	var args []string
-	for _, p := range f.Params {
+	variadic, str := -1, -1
+	for i, p := range f.Params {
 		a, e := argFor(p)
 		if e != nil {
-			return "", "", fmt.Errorf("%s: %v", f.Name, e)
+			return "", nil, fmt.Errorf("%s: %v", f.Name, e)
+		}
+		if p == "...interface{}" {
+			variadic = i
+		}
+		if p == "string" {
+			str = i
 		}
 		args = append(args, a)
 	}
@@ -99,9 +117,21 @@ func callExpr(f chains.Func) (recv string, call string, err error) {
 	case f.Recv == "*Event":
 		recv = "."
 	default:
-		return "", "", fmt.Errorf("%s: receiver %q not handled by the program generator", f.Name, f.Recv)
+		return "", nil, fmt.Errorf("%s: receiver %q not handled by the program generator", f.Name, f.Recv)
 	}
-	return recv, name + "(" + strings.Join(args, ", ") + ")", nil
+	calls = []string{name + "(" + strings.Join(args, ", ") + ")"}
+	if variadic >= 0 {
+		a2 := append([]string{}, args[:variadic]...)
+		if str >= 0 && str < variadic {
+			a2[str] = `"literal"`
+		}
+		calls = append(calls, name+"("+strings.Join(a2, ", ")+")")
+	} else if str >= 0 {
+		a2 := append([]string{}, args...)
+		a2[str] = `""`
+		calls = append(calls, name+"("+strings.Join(a2, ", ")+")")
+	}
+	return recv, calls, nil
 }
 
 func buildLeaves(t *chains.Table) ([]leafT, error) {
@@ -117,25 +147,29 @@ func buildLeaves(t *chains.Table) ([]leafT, error) {
 			return nil, err
 		}
 		for _, f := range t.Finalizers {
-			_, fc, err := callExpr(f)
+			_, fcs, err := callExprs(f)
 			if err != nil {
 				return nil, err
 			}
-			for k := shCaller; k <= shSkip; k++ {
-				add(leafT{Kind: k, Entry: e.Name, Fin: f.Name, Code: r + c + ops[k] + "." + fc,
-					Fatal: strings.HasSuffix(e.Name, ".Fatal"), UsesL: r == "p.L.",
-					NeedsE: strings.Contains(c, "p.Err"), NeedsV: strings.Contains(c, "p.Lvl")})
+			for _, fc := range fcs {
+				for k := shCaller; k <= shSkip; k++ {
+					add(leafT{Kind: k, Entry: e.Name, Fin: f.Name, Code: r + c + ops[k] + "." + fc,
+						Fatal: strings.HasSuffix(e.Name, ".Fatal"), UsesL: r == "p.L.",
+						NeedsE: strings.Contains(c, "p.Err"), NeedsV: strings.Contains(c, "p.Lvl")})
+				}
 			}
 		}
 	}
 	for _, tm := range t.Terminals {
-		r, c, err := callExpr(tm)
+		r, cs, err := callExprs(tm)
 		if err != nil {
 			return nil, err
 		}
-		add(leafT{Kind: shTerminal, Entry: tm.Name, Code: r + c, UsesL: r == "p.L."})
+		for _, c := range cs {
+			add(leafT{Kind: shTerminal, Entry: tm.Name, Code: r + c, UsesL: r == "p.L."})
+		}
 		if tm.Name == "Logger.Write" {
-			add(leafT{Kind: shTerminal, Entry: tm.Name, Code: "p.W." + c, UsesL: true, Iface: true})
+			add(leafT{Kind: shTerminal, Entry: tm.Name, Code: "p.W." + cs[0], UsesL: true, Iface: true})
 		}
 	}
 	return ls, nil
@@ -529,10 +563,26 @@ func runC19(c *Ctx) {
 	if work == "" {
 		work = c.Out
 	}
+	baseline := filepath.Join(verifDir, "harness", "cmd", "c19", "baseline_table.json")
 	tab, err := chains.Extract(repo)
+	fallback := false
 	if err != nil {
+		// the translator cannot read the source any more: that obligation is broken.  The
+		// monitors need only the lists of entry points and finalizers; take them from the
+		// table recorded for the pinned tree and go on looking for a failing statement.
 		fmt.Fprintln(os.Stderr, "C19: call-chain extraction failed:", err)
-		os.Exit(3)
+		c.Res.Broken = append(c.Res.Broken, "call-chain extraction (c19gen translator): "+err.Error())
+		b, rerr := os.ReadFile(baseline)
+		if rerr != nil {
+			fmt.Fprintln(os.Stderr, "C19: no baseline table:", rerr)
+			os.Exit(3)
+		}
+		tab = &chains.Table{}
+		must(json.Unmarshal(b, tab))
+		fallback = true
+	} else if os.Getenv("VERIF_WRITE_BASELINE") == "1" {
+		b, _ := json.MarshalIndent(tab, "", " ")
+		must(os.WriteFile(baseline, b, 0o644))
 	}
 	flag := tab.Consts["useGlobalSkipFrameCount"]
 	leaves, err := buildLeaves(tab)
@@ -852,7 +902,9 @@ func runC19(c *Ctx) {
 		jc["want"] = r.Want
 		jc["callers"] = r.Callers
 		jc["expected_frames"] = exp
-		c.AddCase(term, jc)
+		if !fallback {
+			c.AddCase(term, jc)
+		}
 		key := fmt.Sprintf("%d|%d|%d|%d|%d|%s|%d|%v|%v", l.Idx, cs.D, cs.A, cs.B, cs.G, cs.Caller, cs.N, cs.Pre, cs.Post)
 		c.Count(key, cs.K > 0 || len(cs.Pre)+len(cs.Post) > 0)
 		c.Hist("shape", shapeNames[l.Kind])
